@@ -72,7 +72,8 @@ Definition hamt_case_ok (c : hamt_case) : bool :=
     &&
     (if is_shard root then
        let order := preorder root in
-       let fault := fault_of order (hc_faults c) in
+       (* a block that is not in the store cannot be loaded (the harness store answers with kind 404) *)
+       let fault := fun b => match b with Ext _ _ => Some (ELoad 404) | _ => fault_of order (hc_faults c) b end in
        forallb (fun q =>
                   let '(key, hs, r, loads) := q in
                   let '(mr, ml) := lookup fault root hs key in
@@ -83,7 +84,7 @@ Definition hamt_case_ok (c : hamt_case) : bool :=
           | Some evs =>
             list_eqb (fun a b => list_eqb N.eqb (fst a) (fst b) && iobs_eqb (snd a) (snd b))
                      (map (fun p => (idx_list order (fst p),
-                                     match snd p with IYield k v => OYield k (tid v) | IErr e => OErr e end))
+                                     match snd p with IYield k v => OYield k (tid v) | IErr e => OErr e | IPanic => OErr EUnmodelled end))
                           (iterate fault root)) evs
           end
        && match hc_length c with
